@@ -14,7 +14,7 @@ func init() {
 		ID:          "C07",
 		Explanation: "(R7.1) the caller's problem is left unchanged: no code reachable from the MUS / unsatisfiable-subset methods of *explain.Problem stores into storage that may belong to the receiver (its Clauses backing array, one of its clause arrays, NbVars, NbClauses) - whole-program storage-distance analysis with the receiver protected; accepted idioms: the private scratch fields units/tagged, and growth of Clauses under a deferred restoration; (R7.2) the error of a sub-extraction is tested before its result is used, and an error is propagated as a non-nil error with no problem.",
 		NotDecided:  "unsatisfiability and minimality of the returned clause set, and that its clauses occur in the input (depend on the solver's answers).",
-		Rules:       []ruleFn{ruleR7_1, ruleR7_2, ruleR7_3, ruleR7_4, ruleR13_10, ruleR8_2, ruleR8_3, ruleR8_6, ruleR8_7, ruleR8_8, ruleR8_9, ruleR9_4, ruleR9_5, ruleR9_6, ruleR9_8, ruleR9_12, ruleR8_10, ruleR10_1_3, ruleR10_4, ruleR10_5},
+		Rules:       []ruleFn{ruleR7_1, ruleR7_2, ruleR7_3, ruleR7_4, ruleR13_10, ruleR8_2, ruleR8_3, ruleR8_6, ruleR8_7, ruleR8_8, ruleR8_9, ruleR9_4, ruleR9_5, ruleR9_6, ruleR9_8, ruleR9_12, ruleR8_10, ruleR10_1_3, ruleR10_4, ruleR10_5, ruleR13_13},
 		Fixtures:    []func(*World) []string{fixtureR7_1},
 	})
 }
